@@ -15,3 +15,23 @@ Theorem C18_lifecycle acts : let s := crun acts in
 Proof. exact (C18_model acts). Qed.
 Print Assumptions C18_lifecycle.
 
+
+(* the same as a refinement of the property's own reading of a history (Spec/Client.v): over every action sequence the
+   client is connected exactly when the last successful connect has not been followed by a disconnect (explicit, or by
+   leaving an async context, also through an exception); the device then holds exactly one open connection of this client,
+   otherwise none; and every connection the device ever accepted and no longer holds was seen by it as end-of-stream *)
+Require Import AS.Spec.Client AS.Proofs.ClientTrace.
+Theorem C18_connected_exactly_between acts :
+  connected (crun acts) = spec_connected acts /\
+  dev_open (crun acts) = (if spec_connected acts then 1 else 0)%nat /\
+  (dev_open (crun acts) + dev_eofs (crun acts) = spec_accepted acts)%nat.
+Proof. exact (client_refines_history acts). Qed.
+Print Assumptions C18_connected_exactly_between.
+
+(* the reading is not constant: a history on which it says connected, and one on which it says disconnected after three
+   accepted connections *)
+Example C18_history_example :
+  spec_connected [CConnect false; CConnect true; COperation true] = true /\
+  spec_connected [CConnect true; CConnect true; CWith true true; CWith false false] = false /\
+  spec_accepted [CConnect true; CConnect true; CWith true true; CWith false false] = 3%nat.
+Proof. vm_compute. repeat split. Qed.
